@@ -311,7 +311,10 @@ def run(check: core.Check) -> None:
     # ---- 1. design: every TLC run of the two specifications, side by side
     R = "SuppressionRoutesMC"
     jobs: dict[str, tuple] = {
-        "base": ("Suppression", "Suppression.quick.cfg" if quick else "Suppression.thorough.cfg", False, 16),
+        # quick: all files of 3 lines under the four settings that report unused_ignore (all 16 settings: <=2 lines in
+        # base-emit); thorough: all files of <=4 lines x all settings
+        "base": ("SuppressionQuick3", "SuppressionQuick3.cfg", False, 16) if quick
+        else ("Suppression", "Suppression.thorough.cfg", False, 16),
         "base-emit": ("SuppressionEmit", "Suppression.emit2.cfg" if quick else "Suppression.emit3.cfg", quick, 8),
         "pinned": ("Suppression", "Suppression.pinned.cfg", False, 4),
         "enable": (R, "SuppressionRoutes.enable.cfg" if quick else "SuppressionRoutes.enable3.cfg", False, 4 if quick else 16),
@@ -362,7 +365,8 @@ def run(check: core.Check) -> None:
     check.cov["exhaustive"] = exhaustive
     check.cov["rule"] = (
         "base: cases = (abstract file of <=N lines over 26 line forms) x (disabled subset, unused_ignore on/off, bare_ignore "
-        "on/off) enumerated by TLC (design check exhaustive for N=3 quick / 4 thorough; replay of all N=2 quick (sampled to "
+        "on/off) enumerated by TLC (design check exhaustive for N=2 with all 16 settings and N=3 with the 4 settings that "
+        "report unused_ignore in quick, N=4 with all settings in thorough; replay of all N=2 quick (sampled to "
         f"{limit}) / N=3 thorough files); routes: enabling = every request over (all-flag x {{-e,-d,both,neither}} x top x "
         "override x other-module override) for a default-on and a default-off code (quick; + unused_ignore thorough); "
         "catch = every flat file of <=2 (quick) / 3 (thorough) lines over diags {c1,c4,c2,c1+c4} x comments "
@@ -390,7 +394,7 @@ def run(check: core.Check) -> None:
     flat = core.emitted_json(results["catchflat"])
     block = core.emitted_json(results["catchblock"])
     check.cov["routes_cases"] = {"catch-flat": len(flat), "catch-block": len(block)}
-    lim = 2000 if quick else 60000
+    lim = 1500 if quick else 60000
     flat_s = flat if len(flat) <= lim else rnd.sample(flat, lim)
     block_s = block if len(block) <= lim else rnd.sample(block, lim)
     struct = core.emitted_json(results["struct"])
@@ -412,7 +416,8 @@ def run(check: core.Check) -> None:
     judge_cli(check, sims, "routes-structure/main()")
     # the flat catch cases' files under full requests: the enabling dimension exhaustively chosen by TLC is too large to
     # replay, so requests are taken from the simulated cases and files from the exhaustive slice
-    mixed = [{"lines": f["lines"], "cfg": s["cfg"]} for f, s in zip(rnd.sample(flat, min(len(flat), len(sims))), sims)]
+    half = sims[: max(1, len(sims) // 2)]
+    mixed = [{"lines": f["lines"], "cfg": s["cfg"]} for f, s in zip(rnd.sample(flat, min(len(flat), len(half))), half)]
     judge_cli(check, mixed, "routes-catch-flat/main()")
     mark("routes-main-replay")
     judge_cli(check, rnd.sample(sims, 10 if quick else 60), "routes-structure/python -m pyanalyze", subprocess_route=True)
